@@ -1,6 +1,8 @@
 package sim
 
 import (
+	"fmt"
+	"os"
 	"sort"
 	"testing/synctest"
 	"time"
@@ -284,6 +286,13 @@ func (s *Sched) Run() {
 			}
 			s.advance(d)
 			continue
+		}
+		if s.c.TraceOn && os.Getenv("VERIF_TRACE_ELIGIBLE") != "" {
+			names := ""
+			for _, t := range el {
+				names += t.Name + "@" + t.site + " "
+			}
+			s.Trace = append(s.Trace, StepRec{s.step, "(eligible)", fmt.Sprintf("v=%d n=%d: %s", v, n, names), now})
 		}
 		s.release(el[v/4])
 	}
